@@ -45,6 +45,7 @@ const uint64_t kBudgetOut = 3u << 20;       // bytes handed to send() per case (
 const uint64_t kBudgetIn = 3u << 19;        // bytes written by the peers per case
 const size_t kMaxOne = (1u << 20) + 4096;   // one send / one peer write
 const int kMaxDrainPasses = 60000;
+const int kTcpKernelWaitMs = 20000;         // see kernel_holds_bytes()
 
 // the liveness half of "send-complete" (it does fire once everything accepted was written) is pinned by the unit tests
 // BufferedFd.sendComplete_LittleData / _HugeData; the statement itself only has the "fires only when" half
@@ -328,7 +329,7 @@ struct Engine {
       bool drain = sc_mode == 0;
       if (c.inet && (drain || c.tfd < 0)) {            // loopback TCP: what was written is not instantly readable by the peer; wait for it (bounded, real time)
         drain = true;
-        for (int i = 0; i < 200 && c.out_got + inq(c.prd) < acc; ++i) { peer_read(c, SIZE_MAX); struct pollfd pf = {c.prd, POLLIN, 0}; ::poll(&pf, 1, 5); }
+        for (int waited = 0; c.out_got + inq(c.prd) < acc && waited < (kernel_holds_bytes(c) ? kTcpKernelWaitMs : 1000) && inet_waited_ms < kTcpKernelWaitMs; waited += 5) { peer_read(c, SIZE_MAX); struct pollfd pf = {c.prd, POLLIN, 0}; ::poll(&pf, 1, 5); inet_waited_ms += 5; }
       } else if (c.inet) {
         // without touching the peer: read by the peer + waiting in its receive queue <= accepted <= that + the tbox socket's send queue
         // (TIOCOUTQ counts unacknowledged bytes, which may already sit in the peer's queue, so only the bounds are exact)
@@ -514,6 +515,15 @@ struct Engine {
   bool last_progress = false, last_progress_any = false; int inet_waited_ms = 0;
   Conn *wait_conn = nullptr; int wait_left = 0, wait_waited_ms = 0;
   bool progress_seen_this_pass() const { return last_progress; }
+  // Loopback TCP with a small receive window occasionally stalls on the kernel's zero-window probe timer (0.2 s, doubling): when the
+  // missing bytes are demonstrably in the kernel's hands (send queue of the tbox socket not empty, or the socket already closed by an
+  // orderly disconnect) the delay is not tbox's, and the harness waits much longer than for bytes that were never written
+  bool kernel_holds_bytes(Conn &c) {
+    if (!c.inet) return false;
+    if (c.orderly) return true;
+    int outq = 0;
+    return c.tfd >= 0 && ioctl(c.tfd, TIOCOUTQ, &outq) == 0 && outq > 0;
+  }
   bool inet_pending(Conn &c) {
     if (c.orderly) return c.prd >= 0 && !c.peer_shut && !c.peer_closed && !c.peer_eof && !c.peer_rd_err;
     if (!(c.tbox_up && !c.tbox_gone && !c.err_seen && c.close_reports == 0)) return false;
@@ -549,7 +559,7 @@ struct Engine {
       if (progress) quiet = 0; else ++quiet;
       last_progress = progress; progress = false;
       // loopback TCP needs real time: while something is known to be in flight, wait (bounded) instead of counting a quiet pass
-      if (!progress_seen_this_pass()) for (auto &c : conns) if (c->inet && inet_pending(*c) && inet_waited_ms < 3000) {
+      if (!progress_seen_this_pass()) for (auto &c : conns) if (c->inet && inet_pending(*c) && inet_waited_ms < (kernel_holds_bytes(*c) ? kTcpKernelWaitMs : 3000)) {
         struct pollfd pf = {c->prd, POLLIN, 0}; ::poll(&pf, c->prd >= 0 ? 1 : 0, 2); inet_waited_ms += 2; quiet = 0; break;
       }
       if (quiet < quiet_need && ++drain_passes < kMaxDrainPasses) return true;
@@ -571,6 +581,7 @@ struct Engine {
       return err;
     }
     vloop::drive(loop.get(), [this](int p) { return step(p); });
+    if (inet_waited_ms + wait_waited_ms > 0) { stats().counters["tcp_real_time_wait_ms"] += (uint64_t)(inet_waited_ms + wait_waited_ms); if (inet_waited_ms + wait_waited_ms > 200) stats().counters["tcp_cases_waiting_over_200ms"]++; }
     bool nt = c_partial || c_eagain || c_before_enable || c_leftover_more;
     info.nontrivial = nt;
     info.cls_if(c_partial, "partial_direct_write");
@@ -723,7 +734,7 @@ struct ServerEngine : Engine {
     addr.inet = cfgv(0, 0, 11) >= 9;
     backlog = (int)cfgv(1, 1, 4);
     tbuf = (int)cfgv(2, 0, 3); pbuf = (int)cfgv(3, 0, 3);
-    if (addr.inet) tbuf = 3;              // TCP: only the peer's buffers (receive window) are shrunk
+    if (addr.inet) { tbuf = 3; if (pbuf == 0) pbuf = 1; }   // TCP: only the peer's buffers (receive window) are shrunk, and not below 8 KiB: a 2 KiB window stalls on persist timers for seconds
     srv_thr = (size_t)cfgv(4, 0, 3000); if (cfgv(6, 0, 3) == 0) srv_thr = 0;
     sc_mode = (int)cfgv(5, 0, 1);
     addr.path = scratch_dir() + "/s";
@@ -854,7 +865,7 @@ struct ClientEngine : Engine {
     addr.inet = cfgv(0, 0, 11) >= 9;
     reconnect = cfgv(1, 0, 1) == 1;
     tbuf = (int)cfgv(2, 0, 3); pbuf = (int)cfgv(3, 0, 3);
-    if (addr.inet) tbuf = 3;
+    if (addr.inet) { tbuf = 3; if (pbuf == 0) pbuf = 1; }
     cli_thr = (size_t)cfgv(4, 0, 3000); if (cfgv(6, 0, 3) == 0) cli_thr = 0;
     sc_mode = (int)cfgv(5, 0, 1);
     accept_delay = (int)cfgv(7, 0, 6);
